@@ -198,32 +198,24 @@ def parse_cbmc(out):
 
 
 def vlog_from_trace(trace):
-    vals = {}
+    """nondet values in call order = actual parameters of the vin() calls"""
+    vals = []
+    pending = False
     for s in trace:
-        if s.get("stepType") != "assignment":
+        st = s.get("stepType")
+        if st == "function-call" and (s.get("function") or {}).get("displayName") == "vin":
+            pending = True
             continue
-        m = re.match(r"^vlog\[(\d+)[a-zA-Z]*\]$", s.get("lhs", ""))
-        if not m:
-            continue
-        v = s.get("value", {})
-        data = v.get("data")
-        if data is None:
-            continue
-        b = v.get("binary")
-        if b is not None and re.match(r"^[01]+$", b):
-            val = int(b, 2)
-        else:
-            val = int(re.sub(r"[a-zA-Z]+$", "", str(data)))
-        vals[int(m.group(1))] = val & 0xFFFFFFFFFFFFFFFF
-    n = 0
-    for s in trace:
-        if s.get("stepType") == "assignment" and s.get("lhs") == "vlog_n":
-            try:
-                n = int(re.sub(r"[a-zA-Z]+$", "", s["value"]["data"]))
-            except Exception:
-                pass
-    return [vals.get(i, 0) for i in range(n)]
-
+        if pending and st == "assignment" and s.get("assignmentType") == "actual-parameter":
+            v = s.get("value", {})
+            b = v.get("binary")
+            if b is not None and re.match(r"^[01]+$", b):
+                val = int(b, 2)
+            else:
+                val = int(re.sub(r"[a-zA-Z]+$", "", str(v.get("data", "0"))))
+            vals.append(val & 0xFFFFFFFFFFFFFFFF)
+            pending = False
+    return vals
 
 
 _native_lock = None
